@@ -262,7 +262,20 @@ pub fn run_script(script: &Script, trace: bool, prefix: &str) -> (Exec, Option<O
 
         let mut slots: BTreeMap<usize, Slot> = BTreeMap::new();
         let mut raw_session_id = None;
+        let mut fired: BTreeMap<&'static str, u64> = BTreeMap::new();
         for act in &sc.acts {
+            let kind = match act {
+                Act::Gap => Some("delivery_boundary_forced"),
+                Act::Reset { .. } => Some("peer_stream_reset"),
+                Act::CloseConn { .. } => Some("peer_connection_close"),
+                Act::AppCancelAccepts => Some("app_calls_cancelled_and_reissued"),
+                Act::AppClose { .. } => Some("local_close_mid_script"),
+                Act::Sleep { .. } => Some("peer_delay"),
+                _ => None,
+            };
+            if let Some(k) = kind {
+                *fired.entry(k).or_insert(0) += 1;
+            }
             match act {
                 Act::OpenUni { slot } => match raw_conn.open_uni().await {
                     Ok(s) => {
@@ -416,7 +429,7 @@ pub fn run_script(script: &Script, trace: bool, prefix: &str) -> (Exec, Option<O
         let slot_obs: BTreeMap<usize, SlotObs> = slots.iter().map(|(k, v)| (*k, v.obs.lock().unwrap().clone())).collect();
         let rec_state = std::mem::take(&mut *rec.0.lock().unwrap());
         drop(keep);
-        Ok(Obs { sut, raw_close, slots: slot_obs, app: app_log, rec: rec_state, setup_error: None, sut_closed, raw_session_id, sut_can_open_uni_after: can_open, later })
+        Ok((Obs { sut, raw_close, slots: slot_obs, app: app_log, rec: rec_state, setup_error: None, sut_closed, raw_session_id, sut_can_open_uni_after: can_open, later }, fired))
     });
     sut::finish_exec(&mut ex, &netslot, trace);
     ex.probe("loop_iters", out.loop_iters);
@@ -433,7 +446,16 @@ pub fn run_script(script: &Script, trace: bool, prefix: &str) -> (Exec, Option<O
             ex.violation(&format!("{prefix}/setup"), e);
             (ex, None)
         }
-        Some(Ok(obs)) => (ex, Some(obs)),
+        Some(Ok((obs, fired))) => {
+            for k in ["delivery_boundary_forced", "peer_stream_reset", "peer_connection_close", "app_calls_cancelled_and_reissued", "peer_delay"] {
+                ex.fault(k, fired.get(k).copied().unwrap_or(0));
+            }
+            if let Some(n) = fired.get("local_close_mid_script") {
+                ex.fault("local_close_mid_script", *n);
+            }
+            ex.fault("short_read_cap_runs", (script.read_cap > 0) as u64);
+            (ex, Some(obs))
+        }
     }
 }
 
